@@ -122,13 +122,13 @@ Reserve(n) ==
 
 \* nl_string_shrink_to_fit: capacity == length => nothing; else realloc(data, length + nt).
 \* For an empty string without terminator that is realloc(data, 0), which frees the block and
-\* returns NULL: the unchanged code then keeps the dangling pointer (NLSTR_SHRINK_TO_ZERO).
+\* returns NULL: the code used to keep the dangling pointer (F-nlstring-shrink-to-zero, fixed in /repo).
 Shrink ==
     /\ Running
     /\ LET newcap == n0 + (IF nt THEN 1 ELSE 0) IN
        /\ cap' = (IF cap = n0 THEN cap ELSE newcap)
        /\ UNCHANGED <<bytes, nt, utf>>
-       /\ Commit(Entry("shrink", 0, 0, "ok", 0, (IF cap # n0 /\ newcap = 0 THEN "NLSTR_SHRINK_TO_ZERO" ELSE ""), NoStr))
+       /\ Commit(Entry("shrink", 0, 0, "ok", 0, "", NoStr))
 
 Clone ==
     /\ Running /\ Same
